@@ -276,6 +276,11 @@ def drive(recipe):
         t["w"] = [fx(2.0 * math.pi * x) for x in w]
     ne = recipe.get("ne", 0)
     epts = [(rng.uniform(0.05, math.pi - 0.05), rng.uniform(0.0, 2 * math.pi)) for _ in range(ne)]
+    if ne >= 4:
+        # the poles themselves and points a fraction of a degree away from them (all m != 0 terms vanish only AT the pole)
+        near = [0.0, math.pi, 1.0e-3, 3.0e-3, math.pi - 2.0e-3, 4.4e-3, 0.0, math.pi - 1.0e-3]
+        for k in range(min(3, ne // 2)):
+            epts[k] = (near[(recipe["seed"] + 3 * k) % len(near)], epts[k][1])
     t["ne"] = ne
     t["eref"] = [ref_at_point(chan, a, b) for a, b in epts]
     t["erefR"] = [ref_at_point(chan, a, -b) for a, b in epts]
@@ -286,8 +291,24 @@ def drive(recipe):
     def layout_array(v, tag):
         return to_array(complete_py(L, v) if (kind == "real" and tag == "ccplx") else v)
 
+    # a caller may do what it likes with the grid arrays it is handed (shift the azimuth, scale the points): the object's own
+    # grid is not affected
+    try:
+        for a in sht.grid:
+            a -= math.pi
+        for a in sht.grid_cartesian:
+            a *= 0.0
+    except Exception:
+        pass
+
     def samples(v):
-        return reference_samples(L, kind, v, theta, phi)
+        # sampled where the object says its grid is, at the time of sampling (compute_on_grid hands the mesh to the function)
+        def f(T, P):
+            T, P = np.asarray(T, dtype=float), np.asarray(P, dtype=float)
+            if T.shape != (ntheta, nphi) or P.shape != (ntheta, nphi):
+                raise ValueError("grid shape")
+            return reference_samples(L, kind, v, T[:, 0].copy(), P[0, :].copy())
+        return np.asarray(sht.compute_on_grid(f))
 
     # change of units by an exact power of two: the function handed to the library is 2^scale2 times the Gaussian-integer one
     # (tiny or huge coefficients), results are scaled back exactly before projection
